@@ -1496,7 +1496,10 @@ pub fn run_c14(ctx: &Ctx) -> i32 {
         case.cfg.workers = NonZeroUsize::new(1 + rng.usize_below(4));
         case.hint = false;
         let mut res = vec![];
-        for mode in [FillMode::Int, FillMode::Bytes] {
+        // one case in four: both sources are pipe-style (every third read is short although input
+        // remains - the same read pattern for both), so a short block sits between full ones
+        let modes = if idx % 4 == 3 { [FillMode::IntShort, FillMode::BytesShort] } else { [FillMode::Int, FillMode::Bytes] };
+        for mode in modes {
             case.mode = mode;
             match observe(&case) {
                 Ok(o) => res.push(o.bytes),
@@ -1507,12 +1510,70 @@ pub fn run_c14(ctx: &Ctx) -> i32 {
             }
         }
         out.evaluations += 1;
+        if idx % 4 == 3 {
+            out.count("stream_pairs_with_short_reads");
+        }
         if case.audio.frames() > 0 {
             out.distinct.insert(case.key());
         }
         if res[0] != res[1] {
             let pos = res[0].iter().zip(res[1].iter()).position(|(a, b)| a != b);
-            out.violation("C14|streams-differ", format!("integer-fill and byte-fill streams differ (first at byte {pos:?}, lengths {} / {})", res[0].len(), res[1].len()), rpj(ctx, "streams", idx, case.describe()));
+            out.violation("C14|streams-differ", format!("integer-fill and byte-fill streams differ (first at byte {pos:?}, lengths {} / {}; {:?})", res[0].len(), res[1].len(), modes[0]), rpj(ctx, "streams", idx, case.describe()));
+        }
+    });
+    // (a'') big blocks: 48 Ki .. 256 Ki interleaved samples per block (block 8192..=32767 x 2..=8
+    // channels, channel counts that are not powers of two included), both thread modes, one or two
+    // full blocks and a ragged tail; content constant within a block so that encoding stays cheap.
+    // Internal piece sizes of either delivery path (64 Ki samples, 256 KiB, ...) are crossed.
+    let n = ctx.tier.pick(40, 1200);
+    run_cases(ctx, "bigblocks", n, &mut out, |idx, out| {
+        let mut rng = Rng::for_case(ctx.seed, "C14.bigblocks", idx);
+        let bps = *rng.pick(&gen::WIDTHS);
+        let channels = *rng.pick(&[2usize, 3, 3, 4, 5, 6, 7, 8]);
+        let block = match rng.usize_below(4) {
+            0 => 32767,
+            1 => 65536 / channels + 1 + rng.usize_below(3),
+            2 => 32000,
+            _ => rng.urange(8192, 32767),
+        }
+        .min(32767);
+        let blocks = 1 + rng.usize_below(2);
+        let len = blocks * block + *rng.pick(&[0usize, 1, 7, 100, 4097]).min(&(block - 1));
+        let mut samples = vec![0i32; len * channels];
+        for b in 0..=blocks {
+            let v: Vec<i32> = (0..channels).map(|_| rng.range(gen::smin(bps) as i64, gen::smax(bps) as i64) as i32).collect();
+            for t in b * block..((b + 1) * block).min(len) {
+                samples[t * channels..(t + 1) * channels].copy_from_slice(&v);
+            }
+        }
+        let mut cfg = config::Encoder::default();
+        cfg.multithread = idx % 3 != 0;
+        cfg.workers = NonZeroUsize::new(1 + rng.usize_below(3));
+        cfg.block_size = block;
+        let mut case = Case { audio: Arc::new(Audio { channels, bps, rate: 48000, samples, recipe: format!("{blocks} big constant blocks of {block} x {channels}") }), cfg, block, mode: FillMode::Int, hint: rng.flip() };
+        let mut res = vec![];
+        for mode in [FillMode::Int, FillMode::Bytes] {
+            case.mode = mode;
+            match observe(&case) {
+                Ok(o) => res.push(o.bytes),
+                Err(e) => {
+                    report_obs_err(ctx, "bigblocks", idx, &case, &e, out);
+                    return;
+                }
+            }
+        }
+        out.evaluations += 1;
+        out.distinct.insert(case.key());
+        out.max("interleaved_samples_per_block", (block * channels) as u64);
+        if res[0] != res[1] {
+            let pos = res[0].iter().zip(res[1].iter()).position(|(a, b)| a != b);
+            out.violation("C14|streams-differ", format!("integer-fill and byte-fill streams differ for big blocks (first at byte {pos:?}; bytes 21..26 hold the total, 26..42 the MD5)"), rpj(ctx, "bigblocks", idx, case.describe()));
+        } else if res[0].len() >= 42 {
+            // and the total both state is the number of samples handed over
+            let total = (u64::from(res[0][21] & 0x0F) << 32) | u64::from(u32::from_be_bytes([res[0][22], res[0][23], res[0][24], res[0][25]]));
+            if total != len as u64 {
+                out.violation("C14|total-samples", format!("both delivery paths state {total} samples, {len} were handed over"), rpj(ctx, "bigblocks", idx, case.describe()));
+            }
         }
     });
     // (a') many cheap blocks, many workers, and a hashing thread that is kept slow at the hook
@@ -1563,7 +1624,7 @@ pub fn run_c14(ctx: &Ctx) -> i32 {
     crate::sched::perturb_only(None, 0);
     let fin = Finish {
         level: "exploration",
-        rule: "'fills': channels 1..=8 x bytes-per-sample 1..=4 x capacity {32,33,64,257,4096}; each case fills a full block and then two shorter ones (lengths enumerated 0..=capacity for capacity <= 64 over the index space, boundary+random otherwise) through fill_interleaved and fill_le_bytes; the frame buffer is observed through a verbatim-only frame (Verbatim::samples()) and must equal the input exactly (no stale tail); Context md5/total/frame number must agree after every fill. 'streams': emitted bytes identical for an integer-fill and a byte-fill source in both thread modes; 'parbytes': the same with 40-160 cheap blocks, 9-24 workers and the hashing thread slowed down at the hook so that its queue fills; distinct by case description",
+        rule: "'fills': channels 1..=8 x bytes-per-sample 1..=4 x capacity {32,33,64,257,4096}; each case fills a full block and then two shorter ones (lengths enumerated 0..=capacity for capacity <= 64 over the index space, boundary+random otherwise) through fill_interleaved and fill_le_bytes; the frame buffer is observed through a verbatim-only frame (Verbatim::samples()) and must equal the input exactly (no stale tail); Context md5/total/frame number must agree after every fill. 'streams': emitted bytes identical for an integer-fill and a byte-fill source in both thread modes; 'streams' pairs with pipe-style sources (a short block between full ones); 'bigblocks': blocks of 48 Ki - 256 Ki interleaved samples (2-8 channels, both thread modes); 'parbytes': the same with 40-160 cheap blocks, 9-24 workers and the hashing thread slowed down at the hook so that its queue fills; distinct by case description",
         assumptions: vec!["4-byte samples are exercised at frame-buffer level only (no supported width needs 4 bytes)".into()],
         exhaustive: None,
         floors: vec![],
